@@ -4,7 +4,7 @@ From SL Require Import Tac.
 From SL Require Import PyInt LoopSem ScreenSem ScreenMon proofs.InputLink.
 Import ListNotations.
 
-Lemma chk_all_C17 strict fresh quit nosep w e : chk_all strict fresh quit nosep w e = true -> chk_C17sep nosep w e = true.
+Lemma chk_all_C17 fresh quit nosep w e : chk_all fresh quit nosep w e = true -> chk_C17sep nosep w e = true.
 Proof.
   unfold chk_all, mchk_all. intros H. rewrite chk17_abs.
   apply andb_true_iff in H. destruct H as [H _]. apply andb_true_iff in H. destruct H as [H _].
@@ -17,7 +17,7 @@ Theorem separator_every_draw specs specl typed quit run_empty fuel acts :
       (rev (trace (snd (app_run_all specs specl typed quit run_empty fuel acts)))) = true.
 Proof.
   intros HS WF. eapply sok_weaken; [apply chk_all_C17|].
-  apply (all_accepted false false (fun _ => 0) specs specl typed quit run_empty fuel acts HS WF).
+  apply (all_accepted false specs specl typed quit run_empty fuel acts HS WF).
 Qed.
 
 (* what acceptance means, event by event *)
